@@ -59,8 +59,8 @@ theorem importValue_NI (c : Ctx) : ∀ (x : XV) (e : Option Ty), NI (importValue
     refine NI_bind _ _ (importList_NI c vs _) ?_
     intro ivs
     split
-    · trivial
-    · trivial
+    · split <;> trivial
+    · split <;> trivial
     · split <;> trivial
   | .dict kvs, e => by
     simp only [importValue]
